@@ -74,6 +74,7 @@ macro_rules! p_v9_packet {
                     2 => 7,
                     3 => 8,
                     4 => 6,
+                    5 => 12,
                     _ => 0,
                 }
             }
@@ -99,6 +100,12 @@ macro_rules! p_v9_packet {
                     4 => {
                         put16(&mut buf, pos, 0);
                         put16(&mut buf, pos + 2, 40);
+                    }
+                    5 => {
+                        // template flowset with one 1-field record (id and field symbolic)
+                        put16(&mut buf, pos, 0);
+                        put16(&mut buf, pos + 2, 12);
+                        put16(&mut buf, pos + 6, 1);
                     }
                     _ => {}
                 }
@@ -154,6 +161,12 @@ macro_rules! p_v9_packet {
                 }
                 Err(_) => {
                     assert!(fail);
+                    // C07/C06: a rejected packet whose first flowset is refused has taught
+                    // the parser nothing (in particular not a template that only appears
+                    // after the refused data flowset)
+                    if k == 0 {
+                        assert!(p.templates.len() == 0 && p.options_templates.len() == 0);
+                    }
                 }
             }
             core::mem::forget(r);
@@ -161,6 +174,7 @@ macro_rules! p_v9_packet {
         }
     };
 }
+p_v9_packet!(p_v9_unknown_then_template, 2, [3, 5, 0], 0);
 p_v9_packet!(p_v9_two_sets_tail, 2, [1, 2, 0], 5);
 p_v9_packet!(p_v9_count_gt_sets, 3, [1, 0, 0], 0);
 p_v9_packet!(p_v9_count_gt_sets_stray, 3, [2, 0, 0], 2);
